@@ -516,6 +516,26 @@ def spell_uuid(rng, how=None):
     return "".join(c.upper() if rng.random() < 0.5 else c for c in u)     # mixed case
 
 
+def oid_kind(o):
+    """spelling class of a supplied id (for the distribution report)"""
+    if isinstance(o, list):
+        return "uuid-object"
+    if not is_uuid_text(o):
+        return "no-id"
+    k = []
+    if o.startswith("urn:"):
+        k.append("urn")
+    if "{" in o:
+        k.append("braces")
+    if "-" not in o.replace("urn:uuid:", ""):
+        k.append("hex")
+    if o != o.lower() and o.replace("urn:uuid:", "") == o.replace("urn:uuid:", "").upper():
+        k.append("upper")
+    elif o != o.lower():
+        k.append("mixed")
+    return "+".join(k) or "canonical"
+
+
 def is_uuid_text(t):
     import uuid
     try:
@@ -889,7 +909,7 @@ def correspondence(ctx):
             if op in ("parent", "parent_source", "parent_block", "find_related"):
                 key = "%s/%s" % (op, line[2] if isinstance(line[2], str) else line[2][0])
             if op == "create_section" and len(line) > 4:
-                key = "create_section/oid"
+                key = "create_section/oid-%s" % oid_kind(line[4])
             if op == "find" and len(line) > 4:
                 key += "/via-%s" % (line[4] if isinstance(line[4], str) else line[4][0])
             if op == "referring" and len(line) > 3:
